@@ -130,7 +130,7 @@ PROFILES = {
                "allow_vn": True},
     # many address changes in one connection: every new path gets its own PATH_CHALLENGE, responses may be late
     "rebind_storm": {"faults": ("drop", "dup", "delay", "rebind", "timer-late"), "max_rebinds": 10, "rebind_mean": 5.0, "rebind_burst": True,
-                     "rebind_old_alive_p": 0.6},
+                     "rebind_old_alive_p": 0.6, "strict_heal": True},
     "fault_free": {"fault_free": True},
 }
 
